@@ -1,3 +1,4 @@
+@refrac.setter
 def spec(self, value):
     if self.__compensate_freq:
         _ = argtest.lt('refrac * frequency ', (self.dt if value is None else value) * self.__frequency_scale, 1000, float)
